@@ -34,7 +34,8 @@ def x_obligations(tier):
     for (fixed, key, pre, mid, tail) in [("h/a/x/v1/m", "version", "h/a/x/v", "/", "m"), ("h/a/x", "n", "h/a/", "", ""), ("h/s/q1/v1", "version", "h/s/q1/v", "", ""),
                                          ("h/a/x", "version", "h/a/x/v", "", ""), ("h/s/q1", "ext", "h/s/q1/v1/", "", ""),
                                          ("h/a/x/v1/b", "version", "h/a/x/v", "/", "m")]:      # the last: no existing entry carries the Sid's own extension -> empty Sid, nothing made up      # the last two: a key BELOW the Sid's own last field
-        o.append(Obl(f"C09-get_last[{fixed},{key}]", M, "get_last", env={"VF_FIXED": fixed, "VF_KEY": key, "VF_PRE": pre, "VF_MID": mid, "VF_TAIL": tail, "VF_N": "1"}, timeout=T, family="C09-get_last",
+        o.append(Obl(f"C09-get_last[{fixed},{key}]", M, "get_last", env={"VF_FIXED": fixed, "VF_KEY": key, "VF_PRE": pre, "VF_MID": mid, "VF_TAIL": tail, "VF_N": "1",
+                                                                        "VF_EXTRA": "h/a/x/v2;h/a/x/v3" if fixed == "h/a/x/v1/b" else ""}, timeout=T, family="C09-get_last",
                      bound=f"Sid({fixed!r}).get_last({key!r}) over two symbolic siblings"))
     for (search, pre, mid, tail, tail2) in [("h/s/q1/>/*", "h/s/q1/v", "/", "m", "c"), ("h/a/x/>/*", "h/a/x/v", "/", "g", "b")]:
         o.append(Obl(f"C09-all-typed[{search}]", M, "all_last_typed", env={"VF_SEARCH": search, "VF_PRE": pre, "VF_MID": mid, "VF_TAIL": tail, "VF_TAIL2": tail2, "VF_N": "1"}, timeout=T, path_timeout=200,
